@@ -60,27 +60,26 @@ Definition reset_127 : prog unit := iv IvReset ;;; set_sleep_127.
 Definition set_ocp (trim : N) : prog unit := wreg s7_Register_RegOcp (N.lor trim 0x20).
 Definition clampz (lo hi x : Z) : Z := Z.max lo (Z.min hi x).
 
-Definition set_tx_power_1276 (p : Z) (boost : bool) : prog unit :=
+(* register values chosen for a requested output power: (RegPaConfig, RegPaDac, OCP trim) *)
+Definition regs_1276 (p : Z) (boost : bool) : Z * Z * N :=
   if boost then
     let txp := clampz 2 20 p in
-    let op := if (17 <? txp)%Z then (txp - 5)%Z else (txp - 2)%Z in
-    (if (17 <? txp)%Z then wreg s7_Register_RegPaDacSX1276 s7_PaDac_20DbmOn ;;; set_ocp s7_OcpTrim_240Ma
-     else wreg s7_Register_RegPaDacSX1276 s7_PaDac_20DbmOff ;;; set_ocp s7_OcpTrim_100Ma) ;;;
-    wreg s7_Register_RegPaConfig (N.lor s7_PaConfig_PaBoost (u8z op))
+    if (17 <? txp)%Z then (128 + (txp - 5), 135, s7_OcpTrim_240Ma)%Z else (128 + (txp - 2), 132, s7_OcpTrim_100Ma)%Z
   else
     let txp := clampz (-4) 14 p in
-    let '(mx, op) := if (0 <? txp)%Z then (s7_PaConfig_MaxPower7NoPaBoost, txp) else (0, (txp + 4)%Z) in
-    wreg s7_Register_RegPaDacSX1276 s7_PaDac_20DbmOff ;;; set_ocp s7_OcpTrim_100Ma ;;;
-    wreg s7_Register_RegPaConfig (N.lor mx (u8z op)).
+    ((if (0 <? txp) then 112 + txp else txp + 4), 132, s7_OcpTrim_100Ma)%Z.
+Definition set_tx_power_1276 (p : Z) (boost : bool) : prog unit :=
+  let '(pc, pd, ocp) := regs_1276 p boost in
+  wreg s7_Register_RegPaDacSX1276 (Z.to_N pd) ;;; set_ocp ocp ;;; wreg s7_Register_RegPaConfig (Z.to_N pc).
 
-Definition set_tx_power_1272 (p : Z) (boost : bool) : prog unit :=
+(* (RegPaConfig, RegPaDac) *)
+Definition regs_1272 (p : Z) (boost : bool) : Z * Z :=
   if boost then
-    if (17 <? p)%Z then
-      wreg s7_Register_RegPaConfig (N.lor 128 (N.land (u8z (clampz 5 20 p - 5)) 0x0f)) ;;; wreg s7_Register_RegPaDacSX1272 0x87
-    else
-      wreg s7_Register_RegPaConfig (N.lor 128 (N.land (u8z (clampz 2 17 p - 2)) 0x0f)) ;;; wreg s7_Register_RegPaDacSX1272 0x84
-  else
-    wreg s7_Register_RegPaConfig (N.land (u8z (clampz (-1) 14 p + 1)) 0x0f) ;;; wreg s7_Register_RegPaDacSX1272 0x84.
+    if (17 <? p)%Z then (128 + (clampz 5 20 p - 5), 135)%Z else (128 + (clampz 2 17 p - 2), 132)%Z
+  else (clampz (-1) 14 p + 1, 132)%Z.
+Definition set_tx_power_1272 (p : Z) (boost : bool) : prog unit :=
+  let '(pc, pd) := regs_1272 p boost in
+  wreg s7_Register_RegPaConfig (Z.to_N pc) ;;; wreg s7_Register_RegPaDacSX1272 (Z.to_N pd).
 
 Definition set_tx_power_127 (g : cfg127) (p : Z) (is_tx_prep : bool) : prog unit :=
   (match h_variant g with V1276 => set_tx_power_1276 p (h_tx_boost g) | V1272 => set_tx_power_1272 p (h_tx_boost g) end) ;;;
@@ -195,12 +194,14 @@ Definition rssi_offset_127 (g : cfg127) : prog Z :=
   end.
 
 (* get_rx_packet_status -> (rssi, snr); `as i8 as i16 / 4` truncates toward zero *)
+Definition snr_127 (raw : N) : Z := Z.quot (as_i8 raw) 4.
+Definition rssi_127 (off : Z) (raw_rssi raw_snr : N) : Z :=
+  let snr := snr_127 raw_snr in (if (0 <=? snr)%Z then off + linearize_rssi raw_rssi else off + linearize_rssi raw_rssi + snr)%Z.
 Definition pkt_status_127 (g : cfg127) : prog (Z * Z) :=
   s <- rreg s7_Register_RegPktSnrValue ;;
-  let snr := Z.quot (as_i8 s) 4 in
   r <- rreg s7_Register_RegPktRssiValue ;;
   off <- rssi_offset_127 g ;;
-  Ret ((if (0 <=? snr)%Z then off + linearize_rssi r else off + linearize_rssi r + snr)%Z, snr).
+  Ret (rssi_127 off r s, snr_127 s).
 Definition get_rssi_127 (g : cfg127) : prog Z :=
   r <- rreg s7_Register_RegRssiValue ;; off <- rssi_offset_127 g ;; Ret (off + Z.of_N r)%Z.
 
